@@ -2402,6 +2402,9 @@ def parse_config(bindings, skip_unknown=False):
         with utils.try_with_location(statement.location):
           try:
             parse_context.process_import(statement)
+            # Record the import right away, so that it is kept even if a
+            # later statement fails to parse.
+            _IMPORTS.add(statement)
           except ImportError as e:
             if not skip_unknown:
               raise
@@ -2413,10 +2416,7 @@ def parse_config(bindings, skip_unknown=False):
       else:
         raise AssertionError(
             'Unrecognized statement type {}.'.format(statement))
-    # Update recorded imports. Using the context's recorded imports ignores any
-    # `from __gin __ ...` statements used to enable e.g. dynamic registration.
     imports.extend(statement.module for statement in parse_context.imports)
-    _IMPORTS.update(parse_context.imports)
   return includes, imports
 
 
